@@ -22,6 +22,7 @@
 EXTENDS IPAMCore
 
 CONSTANTS
+    BindGiveUpEarly, \* TRUE: the retry loop may end after any failed try (its 3 s deadline is wall-clock); FALSE: only after MaxBindTries
     MaxBindTries, \* bound on the retries of the pods/binding call (timing dependent in the code: 500 ms ticks for 3 s)
     Guards        \* the guards the code has (AllGuards for the code as it is; attack configurations drop one)
 
@@ -270,7 +271,9 @@ Cont(o, r) ==
    [] o.type = "bind" /\ o.pc = "binding" ->
         IF r.res = "ok" THEN {Finish(o, TRUE)}
         ELSE IF r.res = "notfound" THEN {[Finish(o, FALSE) EXCEPT !.loc.enq = TRUE]}
-        ELSE {Finish(o, FALSE)} \cup (IF L.tries < MaxBindTries THEN {[o EXCEPT !.loc.tries = L.tries + 1]} ELSE {})
+        ELSE IF L.tries < MaxBindTries
+               THEN {[o EXCEPT !.loc.tries = L.tries + 1]} \cup (IF BindGiveUpEarly THEN {Finish(o, FALSE)} ELSE {})
+               ELSE {Finish(o, FALSE)}
     (* ======== unbind (one release event) ======== *)
    [] o.type = "unbind" /\ o.pc = "lockpod" ->
         IF CloudOn \/ "unbindUid" \in Guards THEN {Goto(o, "bykey_c")} ELSE {RelDecide(o)}
@@ -453,7 +456,7 @@ CallOutcomes(o, c, f, h) ==
            ELSE {[ret |-> [ok |-> TRUE], w |-> [W EXCEPT !.cloud = Put(cloud, a.ip, a.node)]]}
       [] c.name = "UnAssignIP" ->
            IF f = 1 THEN RO([ok |-> FALSE])
-           ELSE {[ret |-> [ok |-> TRUE], w |-> [W EXCEPT !.cloud = IF a.ip \in DOMAIN cloud THEN Del(cloud, a.ip) ELSE cloud]]}
+           ELSE {[ret |-> [ok |-> TRUE], w |-> [W EXCEPT !.cloud = IF a.ip \in DOMAIN cloud /\ cloud[a.ip] = a.node THEN Del(cloud, a.ip) ELSE cloud]]}
       [] c.name = "cmget" -> IF f = 1 THEN RO([ok |-> FALSE, conf |-> 0]) ELSE RO([ok |-> TRUE, conf |-> cm])
       [] OTHER -> {}
 
